@@ -291,9 +291,40 @@ class C01L2(Part):
         return None
 
 
+class C01Hash(Part):
+    """Hash tie: the code's MurmurHash3_x64_128 (raw bytes, every length 0..80 incl. every tail residue, several seeds) and its
+    canonicalisation of each update overload, against the Lean transcription."""
+    name = "hash"
+    harness = "theta_h"
+    harness_args = ("hash",)
+    model_exe = "dsmodel_theta"
+    family = "hash"
+
+    def generate(self, rng, tier):
+        hs = []
+        for _ in range(6 if tier == "quick" else 60):
+            h = []
+            for n in range(0, 81):
+                data = "".join("%02x" % rng.randrange(256) for _ in range(n)) or "-"
+                h.append("mm %s %d" % (data, rng.choice([0, 9001, rng.randrange(2**64)])))
+            for _j in range(300):
+                ty, lit = gen.rand_input(rng, rng.choice([10, 1000, 10**9]))
+                h.append("hash %s %s %d" % (ty, lit, rng.choice([9001, 9001, rng.randrange(1, 2**64)])))
+            for _j in range(5):
+                h.append("seedhash %d" % rng.randrange(2**64))
+            hs.append(h)
+        return hs
+
+    def nontrivial_key(self, hist, impl_out):
+        return (hist[1], len(impl_out))
+
+
 class C01Spec(C01):
     def parts(self):
-        return [self, L2PART]
+        return [self, L2PART, HASHPART]
+
+
+HASHPART = C01Hash()
 
 
 L2PART = C01L2()
